@@ -40,6 +40,16 @@ def extras(seed):
             for sname in ("both", "eq_params"):
                 strs = [sname if k == j else None for k in range(nt)]
                 ms.append(dict(mask=[STR[sname] if k == j else [True, False, False] for k in range(nt)], form="str", strs=strs, src="str_partial"))
+        # from_str given a MIX of strings and boolean trees (documented): every term in turn given as a tree, the others as strings / omitted,
+        # and every term but one given as (pairwise different) trees
+        for j in range(nt):
+            for a in range(6):
+                tree = [bool((a + 1) & 1), bool((a + 1) & 2), bool((a + 1) & 4)]
+                strs = ["TREE" if k == j else [names[(a + k) % 3], None][(a + k + j) % 4 == 3] for k in range(nt)]
+                ms.append(dict(mask=[tree if k == j else (STR[strs[k]] if strs[k] else [True, False, False]) for k in range(nt)], form="str", strs=strs, src="str_mixed"))
+            trees = [[bool((k + j + 1) & 1), bool((k + j + 1) & 2), bool((k + j + 1) & 4)] for k in range(nt)]
+            strs = [names[j % 3] if k == j else "TREE" for k in range(nt)]
+            ms.append(dict(mask=[STR[strs[k]] if k == j else trees[k] for k in range(nt)], form="str", strs=strs, src="str_mixed"))
         # boolean trees written with their equation-parameter keys in another order, evaluated eagerly through a closure
         for a in range(24):
             bits = [[bool((a >> (k % 3)) & 1), bool(((a + k) >> 1) & 1), not bool(((a + k) >> 1) & 1)] for k in range(nt)]
